@@ -101,11 +101,13 @@ pub fn parse_sexagesimal(angle: &str) -> f64 {
 
     // Handle NSEW indicators
     let mut postfix_sign = 1.0;
-    if "wWsSeEnN".contains(&angle[n - 1..]) {
-        if "wWsS".contains(&angle[n - 1..]) {
-            postfix_sign = -1.0;
-        }
-        angle = &angle[..n - 1];
+    // Note: strip_suffix works on characters, where slicing at `n - 1` would
+    // panic for a value ending in a multi-byte character
+    if let Some(stripped) = angle.strip_suffix(&['w', 'W', 's', 'S'][..]) {
+        postfix_sign = -1.0;
+        angle = stripped;
+    } else if let Some(stripped) = angle.strip_suffix(&['e', 'E', 'n', 'N'][..]) {
+        angle = stripped;
     }
 
     // Split into as many elements as given: D, D:M, D:M:S
